@@ -2,9 +2,12 @@
    where supported, when no label matches; otherwise nothing) under both lowering strategies — binary
    search tree and macro dispatch — and likewise Hardcode.switch.
    Only statements, closed by `exact`, each followed by Print Assumptions; non-vacuity Examples at the end.
-   The model (Model/Switch.v) is of the tree with the three fixes/C06-*.patch applied. *)
+   The model (Model/Switch.v) is of the tree with the three fixes/C06-*.patch applied; Model/SwitchRet.v
+   (round 4, last part of this file) adds Minecraft's `return` to the semantics and the dispatcher as
+   repaired by fixes/C06-return-in-macro-case.patch. *)
 From Coq Require Import ZArith String List Bool.
-From JMCV Require Import Base.Int32 Base.Dec MC.Syntax MC.Sem Model.Names Model.Switch Proofs.Switch.
+From JMCV Require Import Base.Int32 Base.Dec MC.Syntax MC.Sem Model.Names Model.Switch Proofs.Switch
+     Model.SwitchRet Proofs.SwitchRet.
 Import ListNotations.
 Open Scope Z_scope.
 
@@ -248,3 +251,159 @@ Example C06_nonvacuous_macro :
     compile_switch default_names (mkCfg 48 true) x entries 0 0 = Err ESyntax /\
     compile_switch default_names (mkCfg 15 false) x entries 0 0 = Err EVersionTooLow.
 Proof. cbn zeta. eexists _, _, _, _. repeat split; reflexivity. Qed.
+
+(* ================================================================== round 4: case bodies that `return`
+
+   Model.SwitchRet.rexec extends MC.Sem by Minecraft's `return`: a line whose command starts with the
+   word `return` / `$return` (alone or behind `execute … run`) ends the function it is written in;
+   `rexec_list ft env F l st = Some (st', o)`: the lines l, run as one function body from st, stop in
+   st' — o = Ret when a return stopped them, Next when the last line did.  A called function that
+   returns comes back to the line after the call.  The MEANING OF A BODY is what calling a function
+   made of its lines does (`exists o F, rexec_list … body st = Some (B k st, o)`): it may return at
+   any line, conditionally, from any depth. *)
+
+(* The extension is conservative: where no function of the pack and no line of the caller holds the
+   word `return`, rexec is MC.Sem's exec (same fuel, same final state, never Ret). *)
+Theorem C06_return_semantics_conservative :
+  forall ft env,
+    (forall f b, ft f = Some b -> body_has_return b = false) ->
+    forall F l st,
+      body_has_return l = false ->
+      rexec_list ft env F l st = match exec_list ft env F l st with Some st' => Some (st', Next) | None => None end.
+Proof. exact rexec_list_plain. Qed.
+Print Assumptions C06_return_semantics_conservative.
+
+(* The textual test of DataPack.isolate_return is sound for this semantics: lines without the word
+   `return` never return, whatever functions they call. *)
+Theorem C06_no_word_no_return :
+  forall ft env me body,
+    body_has_return body = false ->
+    forall st st' o, (exists F, rseq (rexec ft env F me) body st = Some (st', o)) -> o = Next.
+Proof. exact no_return_body. Qed.
+Print Assumptions C06_no_word_no_return.
+
+(* The repaired macro dispatcher, bodies that may return — FULL: for every finite list of labels
+   (sparse, any order, repeats, default anywhere or absent) and EVERY body (any command list; B k is
+   what calling it does): the dispatcher terminates, does not itself return, and ends in `macro_final`
+   — by C06_macro_reads_as_source: the body selected at source level ran, the default body iff no
+   label matched, and nothing else.  No condition on the bodies. *)
+Theorem C06_macro_return_exact :
+  forall nm group x cases pc ft env B,
+    (forall k c, nth_error cases k = Some c ->
+                 forall st, exists o F, rexec_list ft env F (snd c) st = Some (B k st, o)) ->
+    forall cmds fs pc',
+      parse_switch_macro_r nm group x cases pc = (cmds, fs, pc') ->
+      ft_agrees_macro nm group pc ft fs ->
+      forall st, exists F, rexec_list ft env F cmds st = Some (macro_final nm x cases B st, Next).
+Proof. exact parse_switch_macro_r_exact. Qed.
+Print Assumptions C06_macro_return_exact.
+
+(* The binary-search tree, bodies that may return — same statement as C06_bst_exact with the meaning of
+   a body taken as a function (a leaf holds the body and nothing else, so a return in it costs nothing);
+   the frame hypothesis on __switch__N stays. *)
+Theorem C06_bst_return_exact :
+  forall nm group x bodies start guard1 pc sid cmds fs pc' sid' ft env B,
+    parse_switch_bst nm group x bodies start guard1 pc sid = Ok (cmds, fs, pc', sid') ->
+    guard1 = true \/ (2 <= length bodies)%nat ->
+    (forall f b, In (f, b) fs -> ft f = Some b) ->
+    (forall k body, nth_error bodies k = Some body ->
+       forall st, (exists o F, rexec_list ft env F body st = Some (B k st, o)) /\
+                  sc (B k st) (tmp_score nm sid) = sc st (tmp_score nm sid)) ->
+    forall st, exists F,
+      rexec_list ft env F cmds st =
+      Some (bst_final B (tmp_score nm sid) x start (Z.of_nat (length bodies)) st, Next).
+Proof. exact parse_switch_bst_rexact. Qed.
+Print Assumptions C06_bst_return_exact.
+
+(* switch(), either strategy, as repaired: whenever the statement compiles, running the emitted
+   commands runs the entry selected at source level — for bodies that may return. *)
+Theorem C06_switch_return_exact :
+  forall nm c x entries pc sid cmds fs pc' sid',
+    compile_switch_r nm c x entries pc sid = Ok (cmds, fs, pc', sid') ->
+    if is_macro c then
+      forall ft env B,
+        ft_agrees_macro nm SWITCH_CASE_NAME pc ft fs ->
+        bodies_ok_macro_r (cases_of entries) ft env B ->
+        forall st, rruns ft env no_menv cmds st (macro_final nm x (cases_of entries) B st) Next
+    else
+      (exists start, map fst entries = map LNum (consec start (length entries))) /\
+      forall ft env B,
+        (forall f b, In (f, b) fs -> ft f = Some b) ->
+        bodies_ok_bst_r (tmp_score nm sid) (map snd (cases_of entries)) ft env B ->
+        forall st, rruns ft env no_menv cmds st
+                         (run_selected B (map fst entries) (rd (sc st) x)
+                                       (fst (do_op st (tmp_score nm sid) OAssign x))) Next.
+Proof. exact compile_switch_r_exact. Qed.
+Print Assumptions C06_switch_return_exact.
+
+Theorem C06_hardcode_return_exact :
+  forall nm c x body b cnt pc sid cmds fs pc' sid',
+    compile_hardcode_r nm c x body b cnt pc sid = Ok (cmds, fs, pc', sid') ->
+    if is_macro c then
+      forall ft env B,
+        ft_agrees_macro nm HARDCODE_SWITCH_NAME pc ft fs ->
+        bodies_ok_macro_r (hard_cases body b cnt) ft env B ->
+        forall st, rruns ft env no_menv cmds st (macro_final nm x (hard_cases body b cnt) B st) Next
+    else
+      forall ft env B,
+        (forall f bd, In (f, bd) fs -> ft f = Some bd) ->
+        bodies_ok_bst_r (tmp_score nm sid) (map snd (hard_cases body b cnt)) ft env B ->
+        forall st, rruns ft env no_menv cmds st
+                         (run_selected B (map LNum (consec b (Z.to_nat (cnt - b + 1)))) (rd (sc st) x)
+                                       (fst (do_op st (tmp_score nm sid) OAssign x))) Next.
+Proof. exact compile_hardcode_r_exact. Qed.
+Print Assumptions C06_hardcode_return_exact.
+
+(* Where no case body holds the word `return` the repaired lowering IS the lowering of Model.Switch, so
+   the theorems of the first part (MC.Sem, no returns) speak about the same emitted code. *)
+Theorem C06_repaired_lowering_conservative :
+  forall nm c x entries pc sid,
+    (forall e, In e entries -> body_has_return (body_of (snd e)) = false) ->
+    compile_switch_r nm c x entries pc sid = compile_switch nm c x entries pc sid.
+Proof. exact compile_switch_r_plain. Qed.
+Print Assumptions C06_repaired_lowering_conservative.
+
+(* The dispatcher of the tree before fixes/C06-return-in-macro-case.patch (flag line appended to the
+   body): `switch ($x) { case 1: say "a"; return 1; default: say "d"; }` from $x = 1 runs the case
+   AND the default. *)
+Theorem C06_macro_return_unrepaired_refuted :
+  let nm := default_names in
+  let x := ("$x", "__variable__")%string in
+  let cases := [(LNum 1, [CSay "a"; COther "return 1"]); (LDefault, [CSay "d"])] in
+  exists cmds fs pc',
+    parse_switch_macro nm SWITCH_CASE_NAME x cases 0 = (cmds, fs, pc') /\
+    w_trace fs cmds 1 0 = Some ([ESay "d"; EOther "return 1"; ESay "a"], Next).
+Proof. exact unrepaired_macro_return_runs_default. Qed.
+Print Assumptions C06_macro_return_unrepaired_refuted.
+
+(* Setting the flag BEFORE the body (no function of its own needed) is not a repair: a switch with
+   default nested in the body resets the flag.  `switch ($x) { case 1: switch ($y) { case 1: say "i1";
+   default: say "inner default"; } default: say "outer default"; }` from $x = 1, $y = 5 runs both
+   defaults under that lowering (and only the inner one under the repaired lowering). *)
+Theorem C06_flag_before_body_refuted :
+  w_trace (snd (fst w_inner_ff) ++ snd (fst w_outer_ff)) (fst (fst w_outer_ff)) 1 5 =
+  Some ([ESay "outer default"; ESay "inner default"], Next) /\
+  w_trace (snd (fst w_inner_r) ++ snd (fst w_outer_r)) (fst (fst w_outer_r)) 1 5 =
+  Some ([ESay "inner default"], Next).
+Proof. exact (conj flag_before_body_runs_both_defaults flag_after_body_nested_witness). Qed.
+Print Assumptions C06_flag_before_body_refuted.
+
+(* non-vacuity: a switch with default whose cases return at every position, behind `execute if`, and not at
+   all; the statement compiles (two isolated bodies, counts 1 and 2), and from $x = 1 .. 4 / unset exactly
+   the selected entry runs ($y = 1 makes the conditional return of case 2 fire) *)
+Example C06_nonvacuous_return :
+  let x := ("$x", "__variable__")%string in
+  let y := ("$y", "__variable__")%string in
+  let entries := [(LNum 1, [ICmds [CSay "a"; COther "return 1"; CSay "dead"]]);
+                  (LNum 2, [ICmds [CExecute [MIf true (Matches y (Exact 1))] (COther "return fail"); CSay "b"]]);
+                  (LNum 3, [ICmds [CSay "c"]; IBreak]);
+                  (LDefault, [ICmds [CSay "d"; COther "return run say x"]])] in
+  exists cmds fs pc' sid',
+    compile_switch_r default_names (mkCfg 48 false) x entries 0 0 = Ok (cmds, fs, pc', sid') /\
+    pc' = 3 /\ length fs = 7%nat /\
+    w_trace fs cmds 1 1 = Some ([EOther "return 1"; ESay "a"], Next) /\
+    w_trace fs cmds 2 1 = Some ([EOther "return fail"], Next) /\
+    w_trace fs cmds 2 0 = Some ([ESay "b"], Next) /\
+    w_trace fs cmds 3 1 = Some ([ESay "c"], Next) /\
+    w_trace fs cmds 4 1 = Some ([EOther "return run say x"; ESay "d"], Next).
+Proof. cbn zeta. eexists _, _, _, _. split; [reflexivity|]. vm_compute. repeat split; reflexivity. Qed.
